@@ -134,6 +134,11 @@ def work(run, part, parts):
             loaders = {"specific": {"dict": factory.from_dict, "json": factory.from_json, "uri": factory.from_uri}[fmt], "from_source": factory.from_source}
             if factory is TOTP or not dflt.get("issuer"):
                 loaders["plain-class"] = TOTP.from_source
+            if fmt == "json":
+                # the same document as UTF-8 bytes (as read from a file or a database column)
+                loaders["json-utf8-bytes"] = lambda s_, _f=factory: _f.from_json(s_.encode("utf-8"))
+                loaders["source-utf8-bytes"] = lambda s_, _f=factory: _f.from_source(s_.encode("utf-8"))
+                loaders["json-non-ascii-text"] = lambda s_, _f=factory: _f.from_json(json.dumps(json.loads(s_), ensure_ascii=False))
             for lname, loader in loaders.items():
                 ww = dict(w, format=fmt, loader=lname, source=src if not isinstance(src, dict) else {k: str(v) for k, v in src.items()})
                 rp = ("import warnings; warnings.simplefilter('ignore')\nfrom passlib.totp import TOTP\n"
@@ -208,6 +213,21 @@ def work(run, part, parts):
                     run.count("uri_independent_reads")
                 except ValueError as e:
                     run.violation("C15|uri|independent-reader|unparsable", f"the provisioning URI cannot be parsed by urllib: {e}", dict(w, uri=src))
+        # a live object handed to factories holding (different) application secrets: same key and fields afterwards
+        if i % 7 == 0:
+            wa = TOTP.using(secrets={"1": "first application secret"})
+            wb = TOTP.using(secrets={"1": "another secret under the same tag", "2": "second"})
+            try:
+                owned = wa(**kw)
+                for tname, target in (("other-wallet", wb), ("no-wallet", TOTP), ("same-wallet", wa)):
+                    back = target.from_source(owned)
+                    run.count("objects_between_wallet_factories")
+                    run.case(("object-source", tname), None)
+                    diff = same(back, owned)
+                    if diff or back.generate(times[3]).token != owned.generate(times[3]).token or back.key != key:
+                        run.violation(f"C15|object-source|{tname}|field-lost|{'+'.join(sorted(diff)) or 'tokens'}", f"from_source(<TOTP object of a factory with secrets>) through {tname} changes {diff or 'the codes'}", w)
+            except Exception as e:
+                run.violation(f"C15|object-source|raises|{type(e).__name__}", f"handing a TOTP object to another factory raised {type(e).__name__}: {str(e)[:100]}", w)
         # to_uri with explicit label / issuer arguments
         if rng.random() < 0.3:
             lab2, iss2 = gen_text(rng, False).replace(":", ";"), gen_text(rng, False).replace(":", ";")
@@ -309,6 +329,7 @@ def body(run):
         run.require(f"issuer:{c}", 50)
     run.require("corrupted_refused", 40)
     run.require("uri_independent_reads", 500)
+    run.require("objects_between_wallet_factories", 100)
     run.assumptions += ["leading/trailing blanks of a label or issuer are compared modulo the strip() the Key-URI format documents (URI format only)",
                         "':' is not admissible in labels and issuers (refused by the constructor) and is not generated"]
 
